@@ -79,8 +79,14 @@ bool ops_diff(World &w, const Op &o) {
   struct Tmp { hwloc_topology_t &a, &b, &b2, &c; Run &r; ~Tmp() { if (r.violated || r.cut) return; if (a) hwloc_topology_destroy(a); if (b) hwloc_topology_destroy(b); if (b2) hwloc_topology_destroy(b2); if (c) hwloc_topology_destroy(c); } } tmp{A, B, B2, C, r};
   Rng g(o.u("es")); std::vector<hwloc_obj_t> objs = all_objs(A);
   for (int i = 0; i < 6; i++) { hwloc_obj_t x = objs[g.below(objs.size())]; if (g.chance(1, 2)) { free(x->name); x->name = strdup(g.chance(1, 2) ? "alpha" : "beta"); } hwloc_obj_add_info(x, g.chance(1, 2) ? "K1" : "K2", g.chance(1, 2) ? "x" : "y"); }
+  // mass mode (1 diff op in 8, a function of the op's edit seed): every object of A is named and annotated, every one of them is edited in B,
+  // so that the diff has hundreds of entries and its XML form exceeds the exporters' initial buffer sizes
+  bool mass = ((o.u("es") >> 40) & 7) == 0;
+  if (mass) for (size_t i = 0; i < objs.size(); i++) { free(objs[i]->name); objs[i]->name = strdup(("a" + std::to_string(i)).c_str()); hwloc_obj_add_info(objs[i], "Mass", ("v" + std::to_string(i)).c_str()); }
   if (hwloc_topology_dup(&B, A) < 0) { r.ev("diff: dup failed"); return true; }
-  Edits E; int ned = (int)(o.u("ne") % 5); edit(B, g, ned, E, r);
+  Edits E; int ned = (int)(o.u("ne") % 5);
+  if (mass) { std::vector<hwloc_obj_t> ob = all_objs(B); for (size_t i = 0; i < ob.size(); i++) { if (i % 3 != 1) { free(ob[i]->name); ob[i]->name = strdup(("b" + std::to_string(i)).c_str()); E.nrepr++; } if (i % 3 != 2 && ob[i]->infos.count) { unsigned j = ob[i]->infos.count - 1; free(ob[i]->infos.array[j].value); ob[i]->infos.array[j].value = strdup(("w" + std::to_string(i)).c_str()); E.nrepr++; } } r.count("probe.diff_mass_edit"); }
+  edit(B, g, ned, E, r);
   std::string dA = diffdump(A), dB = diffdump(B);
   // judged on the states, not on the edit history (two edits may cancel each other)
   { bool okA, okB; std::string sA = structdump(A, &okA), sB = structdump(B, &okB); E.complex = sA != sB; E.name_unset_set = false;
@@ -115,7 +121,7 @@ bool ops_diff(World &w, const Op &o) {
   // XML persistence of the diff (buffer or file), same refname, still applies
   { bool tofile = o.u("xml") & 1; const char *ref = (o.u("xml") & 2) ? "ref A&<1>" : "refA"; hwloc_topology_diff_t d3 = nullptr; char *ref2 = nullptr; int er, lr;
     if (tofile) { std::string path = std::string(scratch_dir()) + "/diff." + std::to_string(w.next_token++) + ".xml"; er = hwloc_topology_diff_export_xml(d, ref, path.c_str()); lr = er ? -1 : hwloc_topology_diff_load_xml(path.c_str(), &d3, &ref2); unlink(path.c_str()); }
-    else { char *x = nullptr; int l = 0; er = hwloc_topology_diff_export_xmlbuffer(d, ref, &x, &l); lr = er ? -1 : hwloc_topology_diff_load_xmlbuffer(x, l, &d3, &ref2); if (x) free(x); }
+    else { char *x = nullptr; int l = 0; er = hwloc_topology_diff_export_xmlbuffer(d, ref, &x, &l); if (!er && l > 16384) r.count("probe.diff_xml_over_16k"); lr = er ? -1 : hwloc_topology_diff_load_xmlbuffer(x, l, &d3, &ref2); if (x) free(x); }
     r.count("probe.diff_xml_roundtrip");
     if (er || lr) { if (d3) hwloc_topology_diff_destroy(d3); free(ref2); viol0(w, own, "diff.xml", "diff XML export returned %d, load returned %d", er, lr); }
     bool refok = ref2 && !strcmp(ref2, ref); free(ref2);
